@@ -13,6 +13,8 @@
 #include <unistd.h>
 #include <sys/wait.h>
 #include <signal.h>
+#include <thread>
+#include <atomic>
 #ifdef _OPENMP
 #include <omp.h>
 #endif
@@ -210,6 +212,29 @@ static inline void with_env(int env, F f)
         std::string kind;
         int code;
     };
+    // n plain threads (not an OpenMP team: every one of them has OpenMP thread number 0) released together from a spin
+    // barrier, each running f(tid): concurrent callers of a routine whose result must depend on its arguments only
+    template <typename F>
+    static inline void concurrently(int n, F f)
+    {
+        std::atomic<int> ready{0};
+        std::atomic<bool> go{false};
+        std::vector<std::thread> th;
+        for (int t = 0; t < n; t++)
+            th.emplace_back([&, t]() {
+                ready.fetch_add(1);
+                while (!go.load(std::memory_order_acquire))
+                {
+                }
+                f(t);
+            });
+        while (ready.load() < n)
+        {
+        }
+        go.store(true, std::memory_order_release);
+        for (auto &x : th)
+            x.join();
+    }
     template <typename F>
     ChildEnd in_child(F fn, int timeout_s = 60)
     {
